@@ -218,9 +218,12 @@ def _iterate_tall(n_rows, enc, chunk):
     import tempfile
     import numpy as np
     from cell_type_mapper.anndata_iterator.anndata_iterator import AnnDataRowIterator
+    import contextlib
+    import io
     p, X = _tall_file(n_rows, enc)
     tmp = tempfile.mkdtemp(prefix='it_', dir=_TALL['dir'])
-    it = AnnDataRowIterator(h5ad_path=p, row_chunk_size=chunk, layer='X', tmp_dir=tmp, max_gb=1)
+    with contextlib.redirect_stdout(io.StringIO()):      # the CSC -> CSR rewrite prints its progress
+        it = AnnDataRowIterator(h5ad_path=p, row_chunk_size=chunk, layer='X', tmp_dir=tmp, max_gb=1)
     bad = 0
     expected_r0 = 0
     for block, r0, r1 in it:
